@@ -54,6 +54,21 @@ PROPS = {
         engines=[('broker', dict(prop='C15'))],
         trusted=['asyncio transport/loop contract as implemented by harness FakeTransport/VirtualLoop (DESIGN.md 3c)', 'that asyncio calls pause_writing/resume_writing at the high/low-water marks is library behaviour'],
     ),
+    'C16': dict(
+        module='Hpfeeds.Props.C16', file='Hpfeeds/Props/C16.lean',
+        engines=[('proto3', dict())],
+        trusted=['the three models are written separately from the three files and each is compared with its own class on every run', 'recording subclasses of the real classes; fake transport with write/close/loseConnection'],
+    ),
+    'C17': dict(
+        module='Hpfeeds.Props.C17', file='Hpfeeds/Props/C17.lean',
+        engines=[('stores', dict())],
+        trusted=['modelled, not verified: sqlite3 engine, json module, os.environ, str.upper (the correspondence run builds the REAL stores and carries the hostile-string claim)'],
+    ),
+    'C18': dict(
+        module='Hpfeeds.Props.C18', file='Hpfeeds/Props/C18.lean',
+        engines=[('jsonreload', dict())],
+        trusted=["json.load is an input of the model (parsed value or failure)", 'inotify scheduling is not modelled'],
+    ),
     'C19': dict(
         module='Hpfeeds.Props.C19', file='Hpfeeds/Props/C19.lean',
         engines=[('broker', dict(prop='C19'))],
